@@ -361,7 +361,7 @@ def main():
     run.require("reference_runs", "policy_on_t_sample", "policy_on_interval", "policy_on_iteration", "policy_no_sampling",
                 "selection_checks", "completion_checks", "records_matched")
     thorough = tier() == "thorough"
-    n_total = 40000 if thorough else 7200
+    n_total = 100000 if thorough else 7200
     cases = [{"seed": seed(), "idx": i} for i in range(n_total)]
     res = pmap("vf.checks.c09:run_case", cases, cpu_budget=30)
     for c, r_ in zip(cases, res):
